@@ -20,6 +20,14 @@ matcher's pairs by id, the four lists, `get_num_success/fail`, and every per-lab
 mAP / mAPH of `metrics_score.maps` (1e-9).  Nothing of the matcher's real output enters that model run
 except the per-pair scores of the pairs it made.
 
+Critical flags COMPUTED by the model (every frame of every case, op 'critframe', `PEval.CritFrame.evaluateFrameWith wiring`):
+the model receives the objects with the very positions and frame id the real objects carry, the ego pose registered in
+`frame_ground_truth.transforms` (cos / sin of the yaw as floats, exactly), the critical filter's `filtering_params` and the
+matcher's pairing, applies C10's `_is_target_object` model at BOTH filter call sites of `evaluate_frame` and runs the accounting.
+Compared with what `add_frame_result` returned: the four lists, the filtered inputs, the counters; the model also reports whether
+the two call sites agreed on every paired ground truth.  (Re-introducing the `transform=` typo in-process makes the real outcome
+differ from this model on about half of the MAP frames and coincide with the model's defective wiring `wiringF2` on all of them.)
+
 Oracle (does not use the model): the property's counting identities, exactly-once accounting of every
 critical ground truth, TP soundness recomputed from the real scores, critical-region membership of
 every counted object recomputed in the ego frame, and stability of earlier frames of the history.  The
@@ -61,6 +69,13 @@ THEOREMS = [
         "list_label_kinds", "gtsOf_length_tp", "gt_conservation_ordinary", "gt_conservation_fp_label",
         "critical_only", "pipeline_wf", "frame_conservation", "history_conservation",
         "num_success_def", "num_fail_def", "num_total", "dup_gt_breaks_conservation",
+        # critical region on objects with positions / frame ids / transforms, both filter call sites modelled separately
+        # (PEval/Model/CriticalFrame.lean, PEval/Properties/C03Critical.lean); f2_* / gt_conf_* are the refutations for the
+        # defective wirings and the necessity of the ground-truth confidence hypothesis
+        "critical_sound", "counted_range", "critical_sites_agree", "critical_refines", "critical_matcher_wf",
+        "critical_conservation", "critical_accounting_perm", "critical_num_total", "evaluateFrame_toMap",
+        "critical_frame_free", "egoRel_toMap", "f2_not_critical_sound", "f2_sites_disagree", "f2_breaks_conservation",
+        "f2_not_frame_free", "f2gt_not_critical_sound", "f2gt_not_frame_free", "gt_conf_needed", "gt_conf_needed_conservation",
     ]
 ] + [
     # composition with the matcher model (PEval/Properties/Pipeline.lean): C01's guarantees discharge MatcherWF
@@ -68,6 +83,10 @@ THEOREMS = [
     for t in [
         "matcher_output_wf", "pipeline_same_lists", "pipeline_label_ok_agrees", "pipeline_conservation", "pipeline_accounting_perm",
         "pipeline_num_total", "pipeline_tp_fp_exactly_one", "pipeline_history_conservation",
+        # TP soundness on the pipeline's inputs (threshold = entry of the pass/fail list at the index of the GROUND TRUTH's label),
+        # its refutation for the estimate-label keying, and the label choice of get_negative_objects
+        "detectFrameWith_gtLabel", "pipeline_tp_sound", "pipeline_tp_sound_detectFrame", "estLabel_not_tp_sound",
+        "toPFResNeg_paired", "negative_label_choice",
     ]
 ] + (
     # decision tables of is_label_correct / is_result_correct / get_status, regenerated from the source on every run
@@ -648,7 +667,61 @@ def model_requests(case, out) -> List[dict]:
         # the composed model: one request per frame, after the per-frame requests above
         for fr, o in zip(case["frames"], out["frames"]):
             reqs.append(_pipe_request(case, fr, o, frame_facts(case, fr)))
+    # the critical filter computed by the model from positions / frame ids / transforms (after all other requests)
+    for fr, o in zip(case["frames"], out["frames"]):
+        reqs.append(_crit_request(case, fr, o, frame_facts(case, fr)))
     return reqs
+
+
+def _crit_request(case, fr, o, ff, wiring: str = "code") -> dict:
+    """one frame for `PEval.CritFrame.evaluateFrameWith` (driver op 'critframe'): the objects with the very positions
+    and frame id the real objects carry, the ego pose registered in `frame_ground_truth.transforms` (cos / sin of the
+    yaw as the floats the real matrix is built from), the critical filter's `filtering_params`, the matcher's
+    pairing.  The model COMPUTES the critical flags (C10's `isTarget` at both call sites of `evaluate_frame`)."""
+    L = _labels()
+
+    def lab(name):  # the spelling of the C10 model: "<EnumClass>.<MEMBER>"
+        return type(L[name]).__name__ + "." + L[name].name
+
+    def jobj(d, is_gt):
+        x, y, _z = _position(d, fr, case["frame"])
+        return {"id": d["id"], "label": lab(d["label"]), "name": "false_positive" if d["label"] == "FP" else d["label"],
+                "attrs": [], "score": core.q(1.0 if is_gt else float(d["score"])), "pc": int(d.get("pts", 10)),
+                "uuid": ("g" if is_gt else "e") + str(d["id"]), "frame": case["frame"],
+                "pos": [core.q(float(x)), core.q(float(y))], "key": ff["keys"].get(d["id"], d["id"]) if is_gt else d["id"]}
+
+    objs = [jobj(e, False) for e in fr["ests"]] + [jobj(g, True) for g in fr["gts"]]
+    trans, eyaw = _ego_pose(fr["ego"])
+    cr = fr["crit"]
+    ql = lambda l: None if l is None else [core.q(float(v)) for v in l]  # noqa: E731
+    box = cr["mode"] == "box"
+    crit = {
+        "is_gt": False, "has_transforms": False, "targets": [lab(n) for n in cr["labels"]], "ignore": None,
+        "max_x": ql(cr["a"]) if box else None, "max_y": ql(cr["b"]) if box else None,
+        "max_dist": None if box else ql(cr["a"]), "min_dist": None if box else ql(cr["b"]),
+        "conf": ql(cr.get("conf")), "min_pts": None if cr.get("min_points") is None else [int(v) for v in cr["min_points"]],
+        "uuids": None,
+    }
+    results = []
+    for e, g, score, _lab in o["matcher"]:
+        eo = ff["est"].get(e)
+        go = ff["gt"].get(g) if g is not None else None
+        if eo is None or (g is not None and go is None):
+            continue
+        thr = pf_threshold(fr["pf"], go["label"]) if go is not None else None
+        results.append({"est": e, "gt": g, "lab": label_ok(case["policy"], eo["label"], go["label"]) if go is not None else False,
+                        "thr": core.qopt(thr), "score": score if go is not None else None})
+    return {
+        "op": "critframe", "wiring": wiring,
+        "transforms": [{"frame": "map", "c": core.q(math.cos(float(eyaw))), "s": core.q(math.sin(float(eyaw))),
+                        "tx": core.q(float(trans[0])), "ty": core.q(float(trans[1]))}],
+        "crit": crit, "objs": objs, "gts": list(o["mgr_gts"]), "results": results,
+    }
+
+
+def _crit_base(case, out) -> int:
+    """index of the first 'critframe' response"""
+    return len(out["frames"]) * (2 if case.get("pipe") else 1)
 
 
 def _pf_lists(pf):
@@ -776,6 +849,15 @@ def compare(case, out, resps) -> Optional[str]:
                 d = _cmp_pipe(k, o, resps[len(out["frames"]) + k], ff["dup"])
                 if d:
                     return d
+            # the model that COMPUTES the critical flags (positions, frame id, transforms, both filter call sites)
+            rc = resps[_crit_base(case, out) + k]
+            if "err" in rc:
+                return f"frame {k}: critical-frame model raised {rc['err']}"
+            for key in ("results", "gts", "tp", "fp", "tn", "fn", "ns", "nf"):
+                if snap[key] != rc[key]:
+                    return f"frame {k} (critframe): {key}: impl {snap[key]} != model with computed critical flags {rc[key]}"
+            if not rc.get("sites_agree"):
+                return f"frame {k} (critframe): the two filter call sites disagree on a paired ground truth"
         for key in ("results", "gts", "tp", "fp", "tn", "fn", "ns", "nf"):
             if snap[key] != r[key]:
                 return f"frame {k} ({tag}): {key}: impl {snap[key]} != model {r[key]}"
